@@ -3,7 +3,8 @@ Model of checkpointing and restart (C18).  Core Lean only (imported by the drive
 
   1. `Grid.writeH5Dataset` / `Grid.loadFromFile` / `setupFromFile`   (grid.py:202-237, setups.py:202-240):
      an HDF5 dataset is an array store; every process writes / reads the hyperslab `starts:ends` of its layout.
-  2. file names `"{folder}/{name}_{time:06}.h5"`, `max(glob(...))`, `int(name.split('_')[-1].split('.')[0])`
+  2. file names `"{folder}/{name}_{time:06}.h5"`, `max(glob(...), key=<parsed time>)` (since fix F10; before: plain `max`),
+     `int(name.split('_')[-1].split('.')[0])`
      (grid.py:206, :222-225, setups.py:202-209).
   3. the driver's time loop (fullSimulation.py): a small statement language; the *script* itself is generated from the
      source by harness/translate_driver.py into PygyroVerif/Generated/TimeLoop.lean; here are the two interpreters
@@ -89,8 +90,11 @@ def gridConv : List Nat := [103, 114, 105, 100]
 /-- `"phi"` -/
 def phiConv : List Nat := [112, 104, 105]
 
-/-- Python's `max` of a non-empty list of strings: lexicographic by code point; the first maximal element is kept -/
-def latest : List (List Nat) → Option (List Nat)
+/-- **behaviour before fix F10** (kept as the description of the old code, no longer used by the restart):
+Python's `max(list_of_files)` of a non-empty list of strings: lexicographic by code point; the first maximal element is
+kept.  Equals the file of the largest time only while every time has at most six digits
+(`C18.padded_lex_order_fails_beyond_six_digits`, `C18.latestLex_wrong_beyond_six_digits`). -/
+def latestLex : List (List Nat) → Option (List Nat)
   | [] => none
   | x :: xs => some (xs.foldl (fun m y => if m < y then y else m) x)
 
@@ -112,9 +116,29 @@ def parseNat (l : List Nat) : Option Nat :=
 /-- `t = int(filename.split('_')[-1].split('.')[0])` (setups.py:205) -/
 def parseTime (filename : List Nat) : Option Nat := parseNat (firstField 46 (lastField 95 filename))
 
-/-- `setupFromFile` without `timepoint`: the file chosen and the time resumed from -/
+/-- one step of Python's `max(iterable, key=…)`: the key of the next element is computed (`none`: `int` raises, and so
+does the whole `max`); the element kept so far is replaced only if the new key is *strictly* larger -/
+def keyStep (acc : Option (List Nat × Nat)) (y : List Nat) : Option (List Nat × Nat) :=
+  match acc, parseTime y with
+  | some (m, tm), some ty => if tm < ty then some (y, ty) else some (m, tm)
+  | _, _ => none
+
+/-- `max(list_of_files, key=lambda f: int(f.split('_')[-1].split('.')[0]))` together with the key of the result -/
+def latestWithTime : List (List Nat) → Option (List Nat × Nat)
+  | [] => none
+  | x :: xs => xs.foldl keyStep ((parseTime x).map (fun tx => (x, tx)))
+
+/-- **the repaired selection (fix F10)**, grid.py `loadFromFile` and setups.py `setupFromFile`:
+`max(list_of_files, key=lambda f: int(f.split('_')[-1].split('.')[0]))` = the *first* file, in list order, whose parsed
+time is maximal.  `none` stands for an exception: `max` of an empty list raises ValueError (`setupFromFile` tests
+`len(list_of_files) > 0` first, `loadFromFile` does not), and if the time of *any* listed name cannot be parsed
+`int(…)` raises ValueError inside `max` whatever the other names are — so the whole selection is `none` then. -/
+def latestByTime (files : List (List Nat)) : Option (List Nat) := (latestWithTime files).map (·.1)
+
+/-- `setupFromFile` without `timepoint`: the file chosen (`latestByTime`) and the time resumed from
+(`t = int(filename.split('_')[-1].split('.')[0])`, parsed again from the chosen name as the code does) -/
 def restartChoice (files : List (List Nat)) : Option (List Nat × Nat) :=
-  match latest files with
+  match latestByTime files with
   | none => none
   | some f => (parseTime f).map (fun t => (f, t))
 
